@@ -47,6 +47,7 @@ pub struct Stats {
     pub nontrivial: u64,
     pub samples: Vec<Value>,
     pub viol_written: u64,
+    pub constructs: BTreeMap<String, u64>,
 }
 
 fn flat(entries: &Value) -> Value {
@@ -271,6 +272,17 @@ fn compare_history(ctx: &Ctx, job: &Value, reply: &Value) {
         let mut beh = src.get(&r).cloned().unwrap_or(json!({"pat": [], "flags": [], "x": true}));
         beh["history_mode"] = json!(mode);
         let raw = res.get(i).cloned().unwrap_or(Value::Null);
+        // purity, decided on the real code alone: same call, fresh object
+        if let Some(fr) = reply["fresh"].get(i) {
+            if !fr.is_null() && fault_kind(&raw).is_none() {
+                ctx.bump(0, "impure");
+                let a = strip_iter_meta(fr);
+                // an open call's fresh counterpart has no iterator id to compare: only the kind
+                if a != got {
+                    ctx.violation("impure", &beh, &s, &format!("{}#{}({})", name, i, mode), a, got.clone());
+                }
+            }
+        }
         if let Some(k) = fault_kind(&raw) {
             ctx.violation(k, &beh, &s, &format!("{}#{}({})", name, i, mode), exp.clone(), raw);
             continue;
@@ -470,6 +482,19 @@ pub fn main(args: &[String]) -> i32 {
             if beh["pat"].as_array().map(|a| a.len()).unwrap_or(0) > 1 {
                 st.nontrivial += 1;
             }
+            // which constructs the replayed patterns exercise (vacuity evidence)
+            let p = cps_str(&beh["pat"]);
+            for (name, tok) in [("group", "("), ("noncapturing", "(?:"), ("alternation", "|"), ("star", "*"), ("plus", "+"),
+                                ("optional", "?"), ("counted", "{"), ("lazy", "*?"), ("lazy2", "+?"), ("backref", "\\1"),
+                                ("bol", "^"), ("eol", "$"), ("class", "["), ("negclass", "[^"), ("subtraction", "-["),
+                                ("dot", "."), ("escape_d", "\\d"), ("category", "\\p{")] {
+                if p.contains(tok) {
+                    *st.constructs.entry(name.to_string()).or_insert(0) += 1;
+                }
+            }
+            if p.is_empty() {
+                *st.constructs.entry("empty_pattern".to_string()).or_insert(0) += 1;
+            }
             if st.samples.len() < 3 && st.behaviours % 97 == 1 {
                 let mut b = beh.clone();
                 if let Some(c) = b["cases"].as_array_mut() {
@@ -499,7 +524,7 @@ pub fn main(args: &[String]) -> i32 {
         "behaviours": st.behaviours, "cases": st.cases, "calls": st.calls,
         "compared": st.compared, "mismatches": st.mismatches,
         "unspec_cases": st.unspec_cases, "indefinite_cases": st.indefinite_cases,
-        "nontrivial": st.nontrivial, "samples": st.samples,
+        "nontrivial": st.nontrivial, "samples": st.samples, "constructs": st.constructs,
         "confirmed_hangs": pool::CONFIRMED_HANGS.load(std::sync::atomic::Ordering::SeqCst),
         "fault_jobs": pool::FAULT_JOBS.load(std::sync::atomic::Ordering::SeqCst),
         "skipped_jobs": pool::SKIPPED_JOBS.load(std::sync::atomic::Ordering::SeqCst),
